@@ -15,7 +15,8 @@ from core.common import f2b, b2f, close
 from core import impl as I
 
 ID = "C07"
-LEAN_MODULES = ["AcnProofs.C07", "AcnProofs.Lemmas.CodeTieSorted"]
+LEAN_MODULES = ["AcnProofs.C07"]
+TIE_MODULES = ["AcnProofs.Lemmas.CodeTieSorted"]
 DRIVER = "drv_C07"
 REQUIRED_THEOREMS = [
     "Acn.C07.bisect_lower_end", "Acn.C07.walkDown_tested", "Acn.C07.greedy_invariant",
